@@ -321,16 +321,24 @@ def total_float(g, iters=400, tol=1e-13):
     return V, False
 
 
-def shrink_grammar(g, fails, budget=40):
-    """greedy: drop rules while fails(g) stays true (at most `budget` calls of fails)"""
+_SHRINK_SPENT = [0.0]   # seconds spent shrinking in this process (all calls)
+
+
+def shrink_grammar(g, fails, budget=40, seconds=25.0, total_seconds=100.0):
+    """greedy: drop rules while fails(g) stays true (at most `budget` calls of fails, `seconds` per call of this
+    function and `total_seconds` per process: shrinking only makes replays smaller, it never decides anything)"""
+    import time
     g = {"S": g["S"], "nT": g["nT"], "rules": [list(r) for r in g["rules"]]}
     changed = True
     calls = 0
+    t0 = time.time()
     while changed:
         changed = False
         for i in range(len(g["rules"])):
             calls += 1
-            if calls > budget:
+            now = time.time()
+            if calls > budget or now - t0 > seconds or _SHRINK_SPENT[0] + (now - t0) > total_seconds:
+                _SHRINK_SPENT[0] += now - t0
                 return g
             h = {"S": g["S"], "nT": g["nT"], "rules": g["rules"][:i] + g["rules"][i + 1:]}
             try:
@@ -340,6 +348,7 @@ def shrink_grammar(g, fails, budget=40):
                     break
             except Exception:
                 pass
+    _SHRINK_SPENT[0] += time.time() - t0
     return g
 
 
